@@ -79,30 +79,6 @@ def sortDup (b : String) (xs : List Term) : List Term × List Fml :=
       (arr, acc.2.1 ++ cs, k)) (xs, [], 0)
   (r.1, r.2.1)
 
-/-- `buffer._unloading_tasks` / `_loading_tasks` and the access order, from the constraint list -/
-def State.bufUnloading (st : State) (b : String) : List (String × Int) :=
-  st.constrs.foldl (fun acc c => match c.body with
-    | .unloadBuffer t b' q => if b' == b then dictSet acc t.name q else acc
-    | _ => acc) []
-
-def State.bufLoading (st : State) (b : String) : List (String × Int) :=
-  st.constrs.foldl (fun acc c => match c.body with
-    | .loadBuffer t b' q => if b' == b then dictSet acc t.name q else acc
-    | _ => acc) []
-
-/-- tasks in the order of `_level_changes_time` / `_buffer_levels[1:]` -/
-def State.bufAccesses (st : State) (b : String) : List String :=
-  st.constrs.filterMap (fun c => match c.body with
-    | .unloadBuffer t b' _ => if b' == b then some t.name else none
-    | .loadBuffer t b' _ => if b' == b then some t.name else none
-    | _ => none)
-
-def Buffer.levelVars (b : Buffer) (accesses : List String) : List Term :=
-  Term.var (.bufInit b.name) :: accesses.map (fun t => Term.var (.bufLevel b.name t))
-
-def Buffer.timeVars (b : Buffer) (accesses : List String) : List Term :=
-  accesses.map (fun t => Term.var (.bufTime b.name t))
-
 def Buffer.ownAsserts (b : Buffer) : List Fml :=
   match b.initial with
   | some i => [.eq (.var (.bufInit b.name)) (numT i)]
